@@ -12,6 +12,7 @@ import SwimVerif.Proofs.ReconEqHash
 import SwimVerif.Model.ReconEqProto
 import SwimVerif.Proofs.ReconStruct
 import SwimVerif.Proofs.ReconEqFinal
+import SwimVerif.Proofs.ReconEqBlind
 
 namespace SwimVerif.ReconEq
 open SwimVerif.Recon
@@ -282,6 +283,46 @@ validator reads either back to its initial state (never `Invalid`). -/
 theorem C15_cmp_complete_layouts (ch : List Char → Bool) (v w : Value) (h : veq v w = true) :
     incrementalCompare (stream (evsG ch v, .fin)) (stream (evsG ch w, .fin)) = some true ∧
     feedAll {} (evsG ch v) = {} := ⟨layout_equal v w h, feedAll_top_layout v⟩
+
+/-! ## C15-N3 — which brace moves are merged -/
+
+/-- **The mechanism of C15-N3, for ALL items** (the additive-size argument): in any context — any builder that is in
+its body on top, anything below — feeding the validator the items `ps` and then the record `{ ys }`, or the record
+`{ ps, ys }` (the same events with the `StartBody` moved left across `ps`), leaves two validators that
+`<ValueValidator as PartialEq>::eq` calls equal, whenever `ys` is not empty: it looks only at the keys, the `attrs` and
+the SUM of the item sizes of the builders (`stacksEq_sim`), and `Record(0, n).len = 1 + n` for `n ≥ 1`.  So once
+`incremental_compare` has skipped the `StartBody` on either side it cannot tell `p…, { ys }` from `{ p…, ys }`. -/
+theorem C15_validator_blind_to_brace_move (ps ys : Items) (hy : ys ≠ .nil) (key : KeyState) (a : Nat)
+    (c : ItemCollection) (rest : List BuilderState) :
+    (feedAll (S (F key true a c :: rest) none) (evsI ps ++ .startBody :: (evsI ys ++ [.endRecord]))).beq
+      (feedAll (S (F key true a c :: rest) none) (.startBody :: (evsI ps ++ (evsI ys ++ [.endRecord])))) = true :=
+  validator_blind_to_brace_move ps ys hy key a c rest
+
+/-- The edge of the merged class, on texts (first group: merged although the values differ; second group: told apart).
+Merged: an opening brace moved left across the items before it — in a record, in a slot value, in an attribute body
+that stays an implicit record.  Told apart: the same move when the inner record is empty (`Record(0,0).len = 2`), when
+it is a slot KEY (the pending key is compared exactly), when it changes the number of items of an attribute body
+between one and two, any move of a CLOSING brace, and adding / dropping a pair of braces. -/
+theorem C15_merged_class_edge :
+    (compareRecon "{1,{2},3}".toList "{{1,2},3}".toList = true ∧
+     compareRecon "{1,2,{3}}".toList "{1,{2,3}}".toList = true ∧
+     compareRecon "{a:1,{2}}".toList "{{a:1,2}}".toList = true ∧
+     compareRecon "{k:{1,{2}}}".toList "{k:{{1,2}}}".toList = true ∧
+     compareRecon "@a(1,{2},3)".toList "@a({1,2},3)".toList = true) ∧
+    (compareRecon "{1,{}}".toList "{{1}}".toList = false ∧
+     compareRecon "{{1},2}".toList "{1,{2}}".toList = false ∧
+     compareRecon "{{1},2}".toList "{{1,2}}".toList = false ∧
+     compareRecon "{1,{2}:3}".toList "{{1,2}:3}".toList = false ∧
+     compareRecon "@a(1,{2})".toList "@a({1,2})".toList = false ∧
+     compareRecon "{1,{2}}".toList "{1,2}".toList = false) := by decide +kernel
+
+/-- `compare_recon_values` is not transitive (so it is not the kernel of any normal form, and the merged class is not
+the equivalence generated by the brace move): each neighbouring pair below differs by one opening brace moved across the
+items before it and is merged, the two ends are told apart. -/
+theorem C15_compare_not_transitive :
+    compareRecon "{1,{2},{3}}".toList "{{1,2},{3}}".toList = true ∧
+    compareRecon "{{1,2},{3}}".toList "{{{1,2},3}}".toList = true ∧
+    compareRecon "{1,{2},{3}}".toList "{{{1,2},3}}".toList = false := by decide +kernel
 
 /-! ## open (tied by differential testing only) -/
 
